@@ -12,7 +12,7 @@ import sys, os, re, json, subprocess, argparse, hashlib, shutil, random, time, q
 
 ap = argparse.ArgumentParser()
 ap.add_argument('file'); ap.add_argument('props'); ap.add_argument('--max', type=int, default=60); ap.add_argument('--seed', type=int, default=1)
-ap.add_argument('--jobs', type=int, default=4); ap.add_argument('--lines'); ap.add_argument('--tier', default='quick'); ap.add_argument('--tag', default='')
+ap.add_argument('--jobs', type=int, default=4); ap.add_argument('--lines'); ap.add_argument('--tier', default='quick'); ap.add_argument('--tag', default=''); ap.add_argument('--survivors-of', help='re-run only the survivors recorded in this earlier result file (against the properties given now)')
 a = ap.parse_args()
 props = a.props.split(',')
 src = open(os.path.join('/repo', a.file)).read().split('\n')
@@ -65,6 +65,10 @@ for m in muts:
     seen.add(k); uniq.append(m)
 random.Random(a.seed).shuffle(uniq)
 sel = uniq[:a.max]
+if a.survivors_of:
+    prev = json.load(open(a.survivors_of))
+    want = {(x['line'], x['new']) for x in prev['survivors']}
+    sel = [m for m in uniq if (m['line'], m['new'].strip()) in want]
 print('%d candidate mutants in %s lines %d-%d, running %d' % (len(uniq), a.file, lo, hi, len(sel)), flush=True)
 
 def sh(cmd, **kw): return subprocess.run(cmd, shell=True, stdout=subprocess.PIPE, stderr=subprocess.STDOUT, text=True, **kw)
